@@ -50,7 +50,7 @@ def cf_bits(cfs):
     return out
 
 
-def make_cats(ctx, seed, npatch, with_z_unk=False, suffix="", generic=False):
+def make_cats(ctx, seed, npatch, with_z_unk=False, suffix="", generic=False, dirfn=None):
     import random
     rng = random.Random(seed)     # the same seed gives the same data (in other cache directories with a suffix)
     cents = [offset(80.0, 15.0, k * 1.0, (k % 2) * 0.4) for k in range(npatch)]
@@ -65,7 +65,7 @@ def make_cats(ctx, seed, npatch, with_z_unk=False, suffix="", generic=False):
         if with_z:
             cols["z"] = [rng.choice([0.15, 0.25, 0.3, 0.45, 0.6]) for _ in pts]
             kw["redshift_name"] = "z"
-        return impl.Catalog.from_dataframe(impl.fresh_dir(ctx, name + suffix), impl.make_df(cols), **kw)
+        return impl.Catalog.from_dataframe((dirfn or impl.fresh_dir)(ctx, name + suffix), impl.make_df(cols), **kw)
     return mk("ref", 30, True), mk("unk", 24, with_z_unk), mk("rand", 30, True)
 
 
@@ -352,6 +352,10 @@ def run(ctx):
     rng = ctx.rng
     impl.set_threads(16)
     terms, metas = [], []
+    # a long-lived parent with a history of discarded configurations against fresh worker processes (props/c05_history.py);
+    # first, while this process has no other past than the one the scenario gives it
+    from props import c05_history
+    hterms, hmetas = c05_history.run(ctx)
     for rep in range(ctx.n(2, 8)):
         # rep 1: more than ten patches (patch_10 sorts before patch_2 as a string)
         npatch = 3 if rep == 0 else 12 if rep == 1 else rng.choice([2, 3, 4])
@@ -474,9 +478,6 @@ def run(ctx):
     run_generic(ctx)
     run_large_patch(ctx)
     run_inputs_reused(ctx)
-    # a long-lived parent with a history of discarded configurations against fresh worker processes (props/c05_history.py)
-    from props import c05_history
-    hterms, hmetas = c05_history.run(ctx)
     impl.set_threads(1)
     codes = ctx.shards("Cases_C05", HEADER, terms, shard=40)
     for (cid, meta), c in zip(metas, codes):
